@@ -256,3 +256,63 @@ func NewFrostStore(path string) *FrostStore {
 }
 func (s *FrostStore) LockKeyshare()   {}
 func (s *FrostStore) UnlockKeyshare() {}
+
+// ---- key-share storers whose lock is real ----------------------------------------------------------
+// Used for the one relayer of a scenario on which a signing process is constructed WHILE a refresh
+// runs: the resharing process and the signing constructor share the relayer's store, and the lock
+// decides which share the constructor reads.  SoftLock has the semantics of the store's sync.Mutex,
+// except that an Unlock of the free lock is ignored instead of killing the run.
+
+type SoftLock struct {
+	mu      sync.Mutex
+	cond    *sync.Cond
+	held    bool
+	waiters int
+}
+
+func NewSoftLock() *SoftLock {
+	l := &SoftLock{}
+	l.cond = sync.NewCond(&l.mu)
+	return l
+}
+
+func (l *SoftLock) Lock() {
+	l.mu.Lock()
+	l.waiters++
+	for l.held {
+		l.cond.Wait()
+	}
+	l.waiters--
+	l.held = true
+	l.mu.Unlock()
+}
+
+func (l *SoftLock) Unlock() {
+	l.mu.Lock()
+	l.held = false
+	l.mu.Unlock()
+	l.cond.Broadcast()
+}
+
+// Waiters: goroutines inside Lock that have not got the lock yet.
+func (l *SoftLock) Waiters() int {
+	l.mu.Lock()
+	defer l.mu.Unlock()
+	return l.waiters
+}
+
+type LockedECDSAStore struct {
+	*keyshare.ECDSAKeyshareStore
+	L *SoftLock
+}
+
+func (s *LockedECDSAStore) LockKeyshare()   { s.L.Lock() }
+func (s *LockedECDSAStore) UnlockKeyshare() { s.L.Unlock() }
+
+type LockedFrostStore struct {
+	*keyshare.FrostKeyshareStore
+	L *SoftLock
+}
+
+func (s *LockedFrostStore) LockKeyshare()   { s.L.Lock() }
+func (s *LockedFrostStore) UnlockKeyshare() { s.L.Unlock() }
